@@ -77,6 +77,42 @@ theorem matched_unsigned (uMax : Nat) (hmax : uMax ≤ ULLMAX) :
     have h1 : ¬ (v > ULLMAX) := by omega
     simp [h1]; omega
 
+/-- **accepted iff it fits, and then exact** — decimal texts (optionally with `+`) of any length for unsigned types -/
+theorem C16_decimal_exact_unsigned (plus : Bool) (ds k : List Nat) (uMax : Nat) (hds : ∀ c ∈ ds, isDigit c = true) (hne : ds ≠ []) (hk : NDS k)
+    (hb : detectBase ((if plus then [43] else []) ++ (ds ++ k)) = 10) (hmax : uMax ≤ ULLMAX) :
+    parseUnsigned ((if plus then [43] else []) ++ (ds ++ k)) uMax =
+      (if CharStream.val ds 0 ≤ uMax then some (CharStream.val ds 0, (if plus then 1 else 0) + ds.length) else none) := by
+  obtain ⟨d, r, e⟩ : ∃ d r, ds = d :: r := by
+    cases ds with
+    | nil => exact absurd rfl hne
+    | cons d r => exact ⟨d, r, rfl⟩
+  have hd : isDigit d = true := hds d (by rw [e]; simp)
+  have hst := strto_decimal (if plus then .plus else .none) ds k hds hne hk
+  have htxt : (if plus then Sign.plus else Sign.none).text = (if plus then [43] else []) := by cases plus <;> rfl
+  rw [htxt] at hst
+  have hneg : decide ((if plus then Sign.plus else Sign.none) = Sign.minus) = false := by cases plus <;> rfl
+  obtain ⟨c0, r0, e0, hc0⟩ : ∃ c0 r0, (if plus then [43] else []) ++ (ds ++ k) = c0 :: r0 ∧ (isDigit c0 = true ∨ c0 = 43) := by
+    cases plus with
+    | false => exact ⟨d, r ++ k, by simp [e], Or.inl hd⟩
+    | true => exact ⟨43, ds ++ k, by simp, Or.inr rfl⟩
+  have hkw : ∀ p0 p, (p0 = 105 ∨ p0 = 117 ∨ p0 = 45) → startsWith (c0 :: r0) (p0 :: p) = false := by
+    intro p0 p hp0; unfold startsWith; simp only [List.isPrefixOf]
+    have : p0 ≠ c0 := by rcases hc0 with h | h <;> (try simp [isDigit] at h) <;> omega
+    simp [this]
+  have h45 : (c0 == 45) = false := by rcases hc0 with h | h <;> (try simp [isDigit] at h) <;> simp <;> omega
+  unfold parseUnsigned
+  rw [e0] at hb hst ⊢
+  simp only [h45, Bool.false_and, Bool.false_eq_true, ↓reduceIte, hkw 105 _ (Or.inl rfl), hkw 117 _ (Or.inr (Or.inl rfl)), hkw 45 _ (Or.inr (Or.inr rfl)), hb, hst, hneg]
+  have hlen : ¬ ((if plus then [43] else []).length + ds.length = 0) := by rw [e]; simp
+  have hl2 : (if plus then [43] else ([] : List Nat)).length = (if plus then 1 else 0) := by cases plus <;> rfl
+  by_cases hfit : CharStream.val ds 0 ≤ uMax
+  · have h1 : ¬ (CharStream.val ds 0 > ULLMAX) := by omega
+    simp [h1, hfit, hl2]
+    exact fun _ => hne
+  · by_cases h1 : CharStream.val ds 0 > ULLMAX
+    · simp [h1, hfit]
+    · simp [h1, hfit]
+
 /-! ### pairs -/
 def SepOk (sep : Nat) : Prop := isDigit sep = false ∧ sep ≠ 120 ∧ sep ≠ 88 ∧ sep ≠ 40
 
